@@ -125,6 +125,15 @@ impl List for RemovableList {
     }
 }
 
+#[cfg(reclass_rs_verif)]
+impl RemovableList {
+    /// Verification hook: returns the list's items and its pending negations.
+    #[must_use]
+    pub fn verif_parts(&self) -> (&[String], &[String]) {
+        (&self.items, &self.negations)
+    }
+}
+
 #[cfg(test)]
 mod removable_list_tests {
     use super::*;
